@@ -364,7 +364,7 @@ def body_pipeline(ctx, case):
     filt = [m for m in mods if m["type"] == "everyk"]
     conv = [m for m in mods if m["type"] == "dtype"]
     a0 = case["arrays"][0]
-    ctx.classify("layout=" + "".join("F" if m["type"] == "everyk" else "D" for m in mods) or "layout=none",
+    ctx.classify("layout=" + ("".join("F" if m["type"] == "everyk" else "D" for m in mods) or "none"),
                  "in=" + a0["dtype"])
     for m in conv:
         ctx.classify("conv=" + ("widen" if _widens(a0["dtype"], m["dtype"]) else "narrow"))
